@@ -29,6 +29,8 @@ func (p *PoolAllocator[T]) Get() *Buffer[T] {
 
 func (p *PoolAllocator[T]) Put(b *Buffer[T]) {
 	mustSame(p.alloc.Capacity*p.alloc.Channels, b.Cap(), diffCapacity)
+	b.data = b.data[:cap(b.data)]
 	b.clear()
+	b.data = b.data[:p.alloc.Channels*p.alloc.Length]
 	p.pool.Put(b)
 }
